@@ -1004,7 +1004,7 @@ int32 psX509ParseCRL(psPool_t *pool, psX509Crl_t **crl, unsigned char *crlBin,
     p += timelen;   /* Move p beyond thisUpdate TIME. */
 
     /* nextUpdateTIME - Optional... but required by spec */
-    if ((end - p) < 1 || ((*p == ASN_UTCTIME) || (*p == ASN_GENERALIZEDTIME)))
+    if ((end - p) >= 1 && ((*p == ASN_UTCTIME) || (*p == ASN_GENERALIZEDTIME)))
     {
         lcrl->nextUpdateType = timetag = *p;
         p++;
@@ -1056,6 +1056,12 @@ int32 psX509ParseCRL(psPool_t *pool, psX509Crl_t **crl, unsigned char *crlBin,
 
         /* Need to peek at next byte to make sure there are some revoked
            certs here. Could be jumping right to crlExtensions  */
+        if ((end - p) < 1)
+        {
+            psTraceCrypto("Truncated tbsCertList in psX509ParseCRL\n");
+            psX509FreeCRL(lcrl);
+            return PS_PARSE_FAIL;
+        }
         if (*p != (ASN_CONTEXT_SPECIFIC | ASN_CONSTRUCTED | 0))
         {
 
